@@ -181,6 +181,7 @@ def check(world, tier):
     b = rep.clause("C16.b", "all DATA / ACK of the data phase go through the repeat loop; handshake replies are sent once")
     c = rep.clause("C16.c", "start-up rejection: 0 <= duplicate_packets <= 254 at every Ok return of Config::new")
     d = rep.clause("C16.d", "surplus copies are inert: a repeated ACK / DATA neither consumes the retry budget nor aborts")
+    e5 = rep.clause("C16.e", "a surplus copy that cannot be sent does not fail the transfer (the peer may be gone once the first copy arrived)")
     regions = [(region_for(world, eng, "::send"), "send"), (region_for(world, eng, "::receive"), "receive")]
     if any(r is None for r, _ in regions):
         a.fail("anchor-lost worker-closures", "worker closures not found")
@@ -234,8 +235,35 @@ def check(world, tier):
             outside = set(g.succ) - ln
             once = not g.on_cycle_avoiding((fid, h), avoid_nodes=sites | outside)
             twice = any(n2 in g.reachable([n1], avoid_nodes=set([(fid, h)]) | outside) - set([n1]) for n1 in sites for n2 in sites)
-            a.ob(once and not twice and len(sites) == 1, "one-send-per-iteration %s" % tag, "an iteration of the repeat loop sends %s"
+            a.ob(once and not twice and len(sites) >= 1, "one-send-per-iteration %s" % tag, "an iteration of the repeat loop sends %s"
                  % ("nothing on some path" if not once else "more than once"), sample={"send sites in loop": len(sites)})
+            # C16.e: the copies after the first are surplus. A conformant peer may have finished (and closed its socket) as soon
+            # as the first copy of the last ACK / DATA arrived; on a connected UDP socket the OS then reports the next send as
+            # failed (ECONNREFUSED). If every iteration's send is fatal, that failure aborts a transfer that is in fact complete
+            # (and clean-on-error deletes the uploaded file). Necessary condition decided here: the loop has an iteration path
+            # on which no send whose failure reaches the transfer's Err return is executed.
+            errret = set(R.ret_nodes(R.transfer_frame(), 1))
+            # a send is fatal when its failure ends the transfer: the Err return is reachable from it before anything else
+            # happens (no other send, no receive, no new loop iteration anywhere)
+            heads = set()
+            for fr_id, body_ in eng.frame_bodies.items():
+                if fr_id and fr_id[0] == R.root_fid[0]:
+                    for hh in getattr(body_, "loops", {}):
+                        heads.add((fr_id, hh))
+            heads |= set(k for k in getattr(eng, "iter_loops", {}) if k[0] and k[0][0] == R.root_fid[0])
+            all_sends = set(R.send_nodes())
+            recvs_ = set(R.recv_nodes())
+            fatal = set()
+            for n in sends:
+                if errret & g.reachable([n], avoid_nodes=heads | recvs_ | (all_sends - set([n]))):
+                    fatal.add(n)
+            e5.need(len(sends), 1, "sends inside the repeat loop (%s)" % tag)
+            lenient = (not fatal) or g.on_cycle_avoiding((fid, h), avoid_nodes=fatal | (set(g.succ) - ln))
+            e5.ob(lenient, "surplus-copy-failure-fatal %s" % tag,
+                  "every copy of a repeated datagram is sent with a fatal error path: when the peer has finished after the first copy (closed socket, "
+                  "ECONNREFUSED on the connected transfer socket) the failed surplus copy aborts the %s worker although the transfer is complete%s"
+                  % (tag, " - and clean-on-error then deletes the uploaded file" if tag == "receive" else ""),
+                  sample={"region": tag, "fatal send sites in the loop": len(fatal), "iteration without a fatal send exists": lenient})
             # the same packet reference each time: the argument of the send is not modified in the loop
             M = eng.loop_cache.get((fid, h), {}).get("M", set())
             pk_args = set()
